@@ -110,6 +110,31 @@ def _scan_exits():
     return out
 
 
+_SAVE_LINES = {}    # function name -> sorted line numbers of its model.save_point( calls
+
+
+def _scan_saves():
+    import ast
+    out = {}
+    for mod in (C, S):
+        try:
+            tree = ast.parse(inspect.getsource(mod))
+        except (OSError, TypeError, SyntaxError):
+            continue
+        for fn in ast.walk(tree):
+            if isinstance(fn, ast.FunctionDef):
+                lines = sorted(set(nd.lineno for nd in ast.walk(fn) if isinstance(nd, ast.Call) and
+                                   isinstance(nd.func, ast.Attribute) and nd.func.attr == "save_point"))
+                if lines:
+                    out[fn.name] = lines
+    return out
+
+
+def all_save_ids():
+    install()
+    return ["%s#%d" % (fn, i) for fn, lines in sorted(_SAVE_LINES.items()) for i in range(len(lines))]
+
+
 def all_exit_ids(include_input_checks=False):
     """Every place where the tree under test constructs an ExitInformation, as 'function#ordinal' (source order).  The
     constructions inside solve() are its input checks and its final adjustments (not run-time exits of the algorithm)."""
@@ -225,6 +250,22 @@ def exit_floor(report, tags, exempt=None):
         raise common.HarnessError("exit sites never reached under this check: %s" % missing)
 
 
+def save_floor(report, tags, exempt=None):
+    """Saved-point coverage: every call site of Model.save_point must be reached, and must at least once offer the point that
+    is finally returned (the situations in which a slip at that site shows in the result)."""
+    exempt = exempt or {}
+    have = all_save_ids()
+    reached = {t[5:]: n for t, n in tags.items() if t.startswith("save:")}
+    asres = {t[15:]: n for t, n in tags.items() if t.startswith("save_is_result:")}
+    cov = report.coverage.setdefault("save_point_sites", {})
+    cov["reached"] = {k: {"executions": reached[k], "offered_the_returned_point": asres.get(k, 0)} for k in sorted(reached)}
+    cov["exempt"] = dict(exempt)
+    missing = [k for k in have if (k not in reached or k not in asres) and k not in exempt]
+    cov["not_reached_or_never_the_result"] = missing
+    if missing:
+        raise common.HarnessError("save_point sites never reached, or never offering the returned point, under this check: %s" % missing)
+
+
 def _ordinal(lines, ln):
     return max([i for i, l in enumerate(lines) if l <= ln] or [0])
 
@@ -315,6 +356,26 @@ def install():
         rec["exit"] = None if res[3] is None else (res[3].flag, res[3].msg)
         return res
     C.Controller.evaluate_objective = evaluate_objective
+
+    # 2b. Model.save_point: which call site offered a point to the saved-point slot (coverage tags; and whether the point it
+    #     offered is the one finally returned)
+    _SAVE_LINES.update(_scan_saves())
+    orig_save = M.Model.save_point
+
+    def save_point(self, x, rvec, nsamples, eval_num, x_in_abs_coords=True):
+        ex = CUR
+        if ex is not None:
+            fr = sys._getframe(1)
+            lines = _SAVE_LINES.get(fr.f_code.co_name)
+            if lines and fr.f_code.co_filename.startswith(common.REPO):
+                sid = "%s#%d" % (fr.f_code.co_name, _ordinal(lines, fr.f_lineno))
+                ex.tags.add("save:" + sid)
+                try:
+                    ex.saves.append((sid, int(eval_num), len(ex.controllers)))
+                except (TypeError, ValueError):
+                    pass
+        return orig_save(self, x, rvec, nsamples, eval_num, x_in_abs_coords=x_in_abs_coords)
+    M.Model.save_point = save_point
 
     # 3. Controller.__init__: live controller (radii, model)
     orig_init = C.Controller.__init__
@@ -507,6 +568,7 @@ class Execution(object):
         self.best_f = None
         self.viol = []
         self.tags = set()
+        self.saves = []
         self.hb_state = None
         self.hb_same = 0
         self.iters = 0
@@ -686,6 +748,13 @@ class Execution(object):
             try:
                 self.soln = dfols.solve(self.objfun, x0, **kw)
                 self.outcome = "returned"
+                try:
+                    k = int(self.soln.xmin_eval_num)
+                    for sid, ev, run in self.saves:
+                        if ev == k:
+                            self.tags.add("save_is_result:" + sid)
+                except (TypeError, ValueError, AttributeError):
+                    pass
             except Livelock as e:
                 self.outcome, self.exc = "livelock", e
             except Timeout as e:
